@@ -2,6 +2,7 @@ package consnet
 
 import (
 	"bytes"
+	"encoding/json"
 	"fmt"
 	"sort"
 	"strings"
@@ -284,6 +285,9 @@ func (m *Monitors) Digest(n *Node) string {
 				if vs == nil {
 					continue
 				}
+				if vs.BitArray().IsEmpty() {
+					continue // an empty vote set (e.g. created for a peer's catch-up round) carries no information
+				}
 				fmt.Fprintf(&b, "v(r%d,t%d:", r, t)
 				for vi := 0; vi < len(m.power); vi++ {
 					v := vs.GetByIndex(vi)
@@ -423,4 +427,15 @@ func (res *Result) fill(nt *Net) {
 		res.Extra = map[string]string{"writelog": strings.Join(nt.writeLog, "\n")}
 	}
 	res.StateHashes = nt.stateHashes
+	if nt.Sc.Inject != nil {
+		st := nt.injStats
+		if st == nil {
+			st = &InjStats{ByType: map[string]int{}, NextSkip: -1}
+		}
+		b, _ := json.Marshal(st)
+		if res.Extra == nil {
+			res.Extra = map[string]string{}
+		}
+		res.Extra["inj"] = string(b)
+	}
 }
